@@ -79,6 +79,10 @@ def discharge (cert : Box → Box × Box × List Nat → Bool) (pv : Paving) (s 
           .ok { s with popped := none, certified := s.certified + 1 }
         else if pv.unicity.any (fun eu => Box.intersects c eu.1) then
           .error "cell replaced by a solution box without being inside its unicity box (no uniqueness certificate)"
+        else if !pv.unicity.isEmpty then
+          -- (systems with equations: the cell was discarded after a certification attempt whose existence
+          --  box is disjoint from it; only a uniqueness certificate on the hull would justify it)
+          .error "cell discarded after a certification attempt without uniqueness certificate"
         else .error "cell dropped: neither emptied, bisected nor covered by the paving"
       | [a, b] =>
         if split2Ok c a b then .ok { s with popped := none, openB := a :: b :: s.openB, kids := [] }
